@@ -6,6 +6,7 @@ package c19
 
 import (
 	"bytes"
+	"context"
 	"encoding/json"
 	"fmt"
 	"io"
@@ -14,6 +15,7 @@ import (
 	"path/filepath"
 	"sort"
 	"strings"
+	"time"
 
 	"github.com/Syuparn/pangaea/di"
 	"github.com/Syuparn/pangaea/evaluator"
@@ -366,12 +368,28 @@ func runProcess(c *core.Ctx, driver string, progs []prog) (obs, bool) {
 	}
 	defer os.RemoveAll(cwd)
 	req, _ := json.Marshal(request{Driver: driver, Progs: progs})
-	cmd := exec.Command(self, "c19run")
-	cmd.Dir = cwd
-	cmd.Stdin = bytes.NewReader(req)
 	var so, se bytes.Buffer
-	cmd.Stdout, cmd.Stderr = &so, &se
-	runErr := cmd.Run()
+	var runErr error
+	// a history that never finishes must not hang the check: the process is killed after 2 minutes (normal: < 1 s) and
+	// tried once more with 4 minutes before "does not finish" becomes the observation
+	for _, limit := range []time.Duration{2 * time.Minute, 4 * time.Minute} {
+		so.Reset()
+		se.Reset()
+		ctx, cancel := context.WithTimeout(context.Background(), limit)
+		cmd := exec.CommandContext(ctx, self, "c19run")
+		cmd.Dir = cwd
+		cmd.Stdin = bytes.NewReader(req)
+		cmd.Stdout, cmd.Stderr = &so, &se
+		runErr = cmd.Run()
+		timedOut := ctx.Err() == context.DeadlineExceeded
+		cancel()
+		if !timedOut {
+			break
+		}
+		if limit == 4*time.Minute {
+			return obs{Err: "PROCESS DID NOT FINISH (killed after 2 and after 4 minutes)"}, true
+		}
+	}
 	var res []obs
 	if json.Unmarshal(so.Bytes(), &res) != nil || len(res) == 0 {
 		// the interpreter process died: report as an observation (C01 decides whether that is a crash)
